@@ -23,6 +23,20 @@ CHECKS['C06'] = dict(
         'Trusted: ref/si.py table, z3.',
    ref='3/C06')
 
+CHECKS['C13'] = dict(
+   text='Inductive step on the real quantity classes: from an arbitrary state (symbolic base-unit magnitude x every display unit) ONE real operation runs '
+        '(every operation named by the property, ~100 per dimension incl. passing the quantity to constructors) and the magnitude term and every get_in(u) term are '
+        'the same terms afterwards - hence any finite history; comparisons/hash on symbolic magnitudes are decided by z3; every foreign-unit read raises.',
+   note='hash() is modelled as an unknown injective function of the hashed structure (equal hashes <=> equal hashed tuples); natively the real hash() is used in replay. '
+        'Angular magnitudes in (-1.5,1.5) rad and temperatures above -459 F so that reads do not raise. Formatting (str/repr/round) returns placeholders. NaN/inf outside.',
+   ref='3/C13')
+CHECKS['C19'] = dict(
+   text='Loop-free symbolic execution of Sight.__init__/get_adjustment/_adjust_sfp_reticle_steps/get_trajectory_adjustment with symbolic click sizes (9 units, bare and explicit), '
+        'distances, magnification and corrections: click counts are compared by z3 with correction/(effective click) per focal plane for all values; constructor rejections on symbolic non-positive clicks.',
+   note='Floats as reals, 1e-9 relative; tangent-based click units only for nominal and effective click <= 1e-3 rad at 1e-6 (small-angle enclosures of atan/tan). '
+        'Effective SFP click below one turn. An explicit zero-length Distance as SFP calibration distance is not required to be rejected (only None / bare 0).',
+   ref='3/C19')
+
 NOT_YET = {}
 
 def main():
